@@ -154,6 +154,8 @@ def run(chk):
         chk.violation(rid, cb.file, c, "Variant<Target,_> constructed", "a compiled assignment is constructed outside Assignment::new, bypassing verify_mutable",
                       detail=d, loc="%s:%d" % (cb.file, cb.line))
 
+    config_rules(chk)
+
     # ---- R15c
     rid = "R15c"
     chk.rule(rid, "Del::compile builds DelFn only past the read-only test on query.external_path(); DelFn is built nowhere else", floor=2)
@@ -202,3 +204,84 @@ def run(chk):
     for c in bad:
         cb = facts.body(c)
         chk.violation(rid, cb.file, c, "DelFn constructed", "DelFn is constructed outside Del::compile, bypassing the read-only check", detail=d)
+
+
+SET_RO = "compiler::compile_config::CompileConfig::set_read_only_path"
+IS_RO = "compiler::compile_config::CompileConfig::is_read_only_path"
+CAN_START = "path::owned::OwnedTargetPath::can_start_with"
+
+
+def config_rules(chk):
+    """R15d/R15e: the read-only registry itself: registration is unconditional; the lookup has its three clauses"""
+    facts = chk.facts
+    rid = "R15d"
+    chk.rule(rid, "set_read_only_path inserts {path, recursive} built from its arguments on every path to return", floor=1)
+    b = chk.anchor(SET_RO, rid)
+    if b is not None:
+        ins = [(bb, t) for bb, t in b.calls() if b.callee(t).endswith("BTreeSet::<compiler::compile_config::ReadOnlyPath>::insert")
+               or (b.callee(t).startswith("std::collections::BTreeSet") and b.callee(t).endswith("::insert"))]
+        ok = False
+        why = None
+        if ins:
+            ibb, it = ins[0]
+            byp = [r for r in b.return_blocks() if r in b.reachable(0, avoid=[ibb])]
+            src = flow_sources(b, op_local(it["args"][1]))
+            from_args = ("arg", 2) in src and ("arg", 3) in src
+            recv = cfgq.ref_root(b, op_local(it["args"][0]))
+            ok = not byp and from_args and bool(recv) and recv[0] == 1 and "read_only_paths" in recv[1]
+            why = "return reachable without insert" if byp else (None if from_args else "inserted entry not built from (path, recursive)")
+        d = {"fn": SET_RO, "inserts": len(ins), "problem": why}
+        chk.instance(rid, d, ok=ok)
+        if not ok:
+            chk.violation(rid, b.file, SET_RO, "registration not unconditional",
+                          "set_read_only_path can return without registering the (path, recursive) it was given (%s): a later recursive registration "
+                          "can be silently dropped" % (why or "no insert into read_only_paths"), detail=d)
+    rid = "R15e"
+    chk.rule(rid, "is_read_only_path: parent-of-entry, recursive-descendant and exact-match clauses each return true; fall-through returns false", floor=3)
+    b = chk.anchor(IS_RO, rid)
+    if b is None:
+        return
+    fam = [facts.body(n) for n in facts.family(IS_RO)]
+
+    def origin(fb, l):
+        """'arg' if the operand derives from the queried path (parameter 2 / a capture of it), 'entry' if from an iterated ReadOnlyPath"""
+        r = cfgq.ref_root(fb, l) if l is not None else None
+        chain = cfgq.ref_chain(fb, l) if l is not None else []
+        if r and r[1] and "path" in r[1]:
+            return "entry"
+        if any(x == 2 for x in chain) and fb.name == IS_RO:
+            return "arg"
+        if r and fb.kind == "closure":
+            return "arg" if not r[1] or r[1][0].isdigit() and "path" not in r[1] else "entry"
+        return "?"
+    true_blocks = {}
+    for fb in fam:
+        true_blocks[fb.name] = {bi for bi, si, s in fb.iter_stmts() if s["d"]["l"] == 0 and s["rv"]["k"] == "use" and s["rv"]["op"].get("bool") is True}
+    clauses = {"parent-of-entry": False, "recursive-descendant": False, "exact-match": False}
+    for fb in fam:
+        rec_reads = [bi for bi, si, s in fb.iter_stmts() if s["rv"]["k"] == "use" and op_place(s["rv"]["op"]) is not None
+                     and "recursive" in [e.get("f") for e in op_place(s["rv"]["op"]).get("p", []) if isinstance(e, dict)]]
+        for bb, t in fb.calls():
+            cal = fb.callee(t)
+            if cal == CAN_START:
+                o0, o1 = origin(fb, op_local(t["args"][0])), origin(fb, op_local(t["args"][1]))
+                edges = cfgq.bool_switch_after_call(fb, bb)
+                leads_true = edges is not None and (edges[0] in true_blocks[fb.name] or cfgq.reaches(fb, [edges[0]], true_blocks[fb.name], avoid=[edges[1]])
+                                                    or t["dest"]["l"] == 0)
+                if o0 == "entry" and o1 == "arg" and leads_true:
+                    clauses["parent-of-entry"] = True
+                if o0 == "arg" and o1 == "entry" and leads_true and (rec_reads and any(fb.dominates(r, bb) for r in rec_reads) or fb.kind == "closure"):
+                    clauses["recursive-descendant"] = True
+            elif cal.endswith("::eq") and "OwnedTargetPath" in (t.get("rfn_full") or t.get("fn_full") or ""):
+                edges = cfgq.bool_switch_after_call(fb, bb)
+                leads_true = edges is not None and (edges[0] in true_blocks[fb.name] or cfgq.reaches(fb, [edges[0]], true_blocks[fb.name], avoid=[edges[1]])
+                                                    or t["dest"]["l"] == 0)
+                if leads_true:
+                    clauses["exact-match"] = True
+    for cname, ok in clauses.items():
+        d = {"fn": IS_RO, "clause": cname, "present": ok}
+        chk.instance(rid, d, ok=ok)
+        if not ok:
+            chk.violation(rid, b.file, IS_RO, "clause `%s` missing" % cname,
+                          "is_read_only_path no longer reports a path read-only through its %s clause: assignments the configuration forbids are accepted" % cname,
+                          detail=d)
